@@ -91,12 +91,35 @@ theorem C04_minmax_cover (c : NumericCondition) (v : NumVal) (mm : MinMaxIndex)
   · -- unknown operator: satisfied by nothing
     exact absurd hsat id
 
+/-- non-vacuity: the fractional value 7/2 (int64 range [3, 4]) under `NOT_BETWEEN 4 AND 10` in a block with range [-10, 4] meets every premise; the block is kept -/
+example :
+    let c : NumericCondition := { Operator := "NOT_BETWEEN", Min := 4, Max := 10 }
+    let v : NumVal := .rat (Rat.divInt 7 2)
+    let mm : MinMaxIndex := { Min := -10, Max := 4 }
+    (c.WF ∧ satNum c v ∧ mm.Min ≤ (toRange v).1 ∧ (toRange v).2 ≤ mm.Max) ∧ evalMinMax mm c = true := by
+  intro c v mm
+  have h : c.WF ∧ satNum c v ∧ mm.Min ≤ (toRange v).1 ∧ (toRange v).2 ≤ mm.Max :=
+    ⟨⟨by decide, by decide, by decide, by simp [c]⟩, by decide, by decide, by decide⟩
+  exact ⟨h, C04_minmax_cover c v mm h.1 h.2.1 h.2.2.1 h.2.2.2⟩
+
 /-- The same statement about the function *regenerated from /repo's Go source on this run*. -/
 theorem C04_minmax_cover_generated (c : NumericCondition) (v : NumVal) (mm : MinMaxIndex)
     (hc : c.WF) (hsat : satNum c v)
     (hlo : mm.Min ≤ (toRange v).1) (hhi : (toRange v).2 ≤ mm.Max) :
     Gen.EvaluateMinMaxCondition mm c = true := by
   rw [Bridge.evalMinMax_bridge]; exact C04_minmax_cover c v mm hc hsat hlo hhi
+
+/-- non-vacuity: -∞ under `LT minInt64` in a block saturated below meets every premise; the regenerated function keeps the block by saturation, not by comparison -/
+example :
+    let c : NumericCondition := { Operator := "LT", Value := minInt64, Values := [1, 2] }
+    let v : NumVal := .negInf
+    let mm : MinMaxIndex := { Min := minInt64, Max := 0 }
+    (c.WF ∧ satNum c v ∧ mm.Min ≤ (toRange v).1 ∧ (toRange v).2 ≤ mm.Max) ∧
+    decide (mm.Min < c.Value) = false ∧ Gen.EvaluateMinMaxCondition mm c = true := by
+  intro c v mm
+  have h : c.WF ∧ satNum c v ∧ mm.Min ≤ (toRange v).1 ∧ (toRange v).2 ≤ mm.Max :=
+    ⟨⟨by decide, by decide, by decide, by decide⟩, by decide, by decide, by decide⟩
+  exact ⟨h, by decide, C04_minmax_cover_generated c v mm h.1 h.2.1 h.2.2.1 h.2.2.2⟩
 
 /-- One prefilter condition: a row that satisfies it keeps every block that covers the row. -/
 theorem C04_condition (m : DataBlockMetadata) (r : RowPre) (c : PreCond)
@@ -125,6 +148,28 @@ theorem C04_condition (m : DataBlockMetadata) (r : RowPre) (c : PreCond)
           exact C04_minmax_cover nc v mm (hwf nc hmc) h h1 h2
     · exact absurd h (by simp)
 
+/-- non-vacuity: a row in partition "p" with values k = 7 and t = 5/2, a block listing both keys with covering ranges, and the leaf `k IN [3, 7]`: covered, well-formed, satisfied -/
+example :
+    let r : RowPre := { pid := "p", vals := fun f =>
+      if f = "k" then some (.int 7) else if f = "t" then some (.rat (Rat.divInt 5 2)) else none }
+    let m : DataBlockMetadata :=
+      { PartitionID := "p", Rows := 4, MinMaxIndexes := [("k", ⟨3, 9⟩), ("u", ⟨0, 0⟩), ("t", ⟨2, 3⟩)] }
+    let c : PreCond := { ConditionType := "MINMAX", MinMaxFieldName := "k",
+                         MinMaxCondition := some ({ Operator := "IN", Values := [3, 7] } : NumericCondition) }
+    (Covers m r ∧ c.WF ∧ rowSatCond r c = true) ∧ evalPreCond m c = true := by
+  intro r m c
+  have hcov : Covers m r := by
+    refine ⟨rfl, fun f v h => ?_⟩
+    simp only [r] at h
+    split at h
+    · subst f; cases h; exact ⟨⟨3, 9⟩, by decide, by decide, by decide⟩
+    · split at h
+      · subst f; cases h; exact ⟨⟨2, 3⟩, by decide, by decide, by decide⟩
+      · cases h
+  have hwf : c.WF := by
+    intro nc h; cases h; exact ⟨by decide, by decide, by decide, by decide⟩
+  exact ⟨⟨hcov, hwf, by decide⟩, C04_condition m r c hcov hwf (by decide)⟩
+
 /-- **C04**: every AND/OR combination inherits it — a block whose metadata covers a row is kept
     by every prefilter tree the row's own values satisfy (nil, empty and unknown nodes included). -/
 theorem C04_tree (m : DataBlockMetadata) (r : RowPre) (e : Option PreExpr)
@@ -132,6 +177,33 @@ theorem C04_tree (m : DataBlockMetadata) (r : RowPre) (e : Option PreExpr)
     (h : rowSatPre r e = true) : evalPre m e = true :=
   Expr.evalOpt_mono (rowSatCond r) (evalPreCond m) PreCond.WF
     (fun c hc hs => C04_condition m r c hcov hc hs) e hwf h
+
+/-- non-vacuity: the same covered row under AND [ partition = "p", OR [ k BETWEEN 7 AND 8, t > 100 ], CONDITION nil ] meets every premise of `C04_tree` -/
+example :
+    let r : RowPre := { pid := "p", vals := fun f =>
+      if f = "k" then some (.int 7) else if f = "t" then some (.rat (Rat.divInt 5 2)) else none }
+    let m : DataBlockMetadata :=
+      { PartitionID := "p", Rows := 4, MinMaxIndexes := [("k", ⟨3, 9⟩), ("u", ⟨0, 0⟩), ("t", ⟨2, 3⟩)] }
+    let e : Option PreExpr := some (.mk "AND" none
+      [.mk "CONDITION" (some { ConditionType := "PARTITION", PartitionCondition := some ({ Operator := "EQ", Value := "p" } : StringCondition) }) [],
+       .mk "OR" none
+         [.mk "CONDITION" (some { ConditionType := "MINMAX", MinMaxFieldName := "k", MinMaxCondition := some ({ Operator := "BETWEEN", Min := 7, Max := 8 } : NumericCondition) }) [],
+          .mk "CONDITION" (some { ConditionType := "MINMAX", MinMaxFieldName := "t", MinMaxCondition := some ({ Operator := "GT", Value := 100 } : NumericCondition) }) []],
+       .mk "CONDITION" none []])
+    (Covers m r ∧ Expr.ForallOpt PreCond.WF e ∧ rowSatPre r e = true) ∧ evalPre m e = true := by
+  intro r m e
+  have hcov : Covers m r := by
+    refine ⟨rfl, fun f v h => ?_⟩
+    simp only [r] at h
+    split at h
+    · subst f; cases h; exact ⟨⟨3, 9⟩, by decide, by decide, by decide⟩
+    · split at h
+      · subst f; cases h; exact ⟨⟨2, 3⟩, by decide, by decide, by decide⟩
+      · cases h
+  have hwf : Expr.ForallOpt PreCond.WF e := by
+    simp [e, Expr.ForallOpt, Expr.Forall, Expr.ForallL, PreCond.WF, NumericCondition.WF]
+    decide
+  exact ⟨⟨hcov, hwf, by decide⟩, C04_tree m r e hcov hwf (by decide)⟩
 
 /-- `UpdateMinMaxIndex` only widens: the updated range contains the old range and the new value. -/
 theorem update_covers (e : MinMaxIndex) (a b : Int) :
@@ -156,6 +228,16 @@ theorem evalMinMax_mono (mm mm' : MinMaxIndex) (c : NumericCondition)
       obtain ⟨x, hx, a, b⟩ := h
       exact ⟨x, hx, by omega, by omega⟩
     all_goals i64omega
+
+/-- non-vacuity: widening the in-range block range [3, 9] to [1, 12] under `GT 5` (kept before, kept after) -/
+example :
+    let mm : MinMaxIndex := { Min := 3, Max := 9 }
+    let mm' : MinMaxIndex := { Min := 1, Max := 12 }
+    let c : NumericCondition := { Operator := "GT", Value := 5 }
+    ((InI64 mm.Min ∧ InI64 mm.Max) ∧ (InI64 mm'.Min ∧ InI64 mm'.Max) ∧ mm.Min ≤ mm.Max ∧ mm'.Min ≤ mm.Min ∧
+      mm.Max ≤ mm'.Max ∧ evalMinMax mm c = true) ∧ evalMinMax mm' c = true := by
+  intro mm mm' c
+  exact ⟨by decide, evalMinMax_mono mm mm' c (by decide) (by decide) (by decide) (by decide) (by decide) (by decide)⟩
 
 /-- Non-vacuity: a uint64 value beyond int64, a saturated block range and a GT condition at the
     int64 maximum meet every hypothesis of `C04_minmax_cover`. -/
